@@ -54,6 +54,8 @@ class Reporter:
         if self.new:
             rdir = VERIF / "evidence" / "replay"
             rdir.mkdir(parents=True, exist_ok=True)
+            for old in rdir.glob(self.pid + "_*.json"):
+                old.unlink()
             for i, (sig, (cnt, _, detail, obj)) in enumerate(
                     sorted(self.new.items())):
                 p = rdir / ("%s_%d.json" % (self.pid, i))
